@@ -20,17 +20,20 @@ Definition cookie : bytes := [99; 130; 83; 99].
 (* BOOTP minimum: padded with zero bytes to 300 *)
 Definition pad_min (b : bytes) : bytes := b ++ repeat 0 (300 - length b).
 
-Definition enc_msg (m : msg4) : res bytes :=
+(* header, cookie, options, End - the message before the BOOTP padding (what gopacket's DHCPv4
+   layer re-serialises in sendEthernet, lib/Frame.v) *)
+Definition enc_body (m : msg4) : res bytes :=
   bind (enc_ip4 (m_ciaddr m)) (fun ci =>
   bind (enc_ip4 (m_yiaddr m)) (fun yi =>
   bind (enc_ip4 (m_siaddr m)) (fun si =>
   bind (enc_ip4 (m_giaddr m)) (fun gi =>
-    let body := [m_op m mod 256; m_htype m mod 256; N.of_nat (length (m_chaddr m)) mod 256; m_hops m mod 256] ++
-                be_bytes 4 (m_xid m) ++ be_bytes 2 (m_secs m) ++ be_bytes 2 (m_flags m) ++
-                ci ++ yi ++ si ++ gi ++ pad_to 16 (m_chaddr m) ++
-                pad_to 64 (firstn 63 (m_sname m)) ++ pad_to 128 (firstn 127 (m_file m)) ++
-                cookie ++ enc_opts (m_opts m) ++ [255] in
-    Ok (pad_min body))))).
+    Ok ([m_op m mod 256; m_htype m mod 256; N.of_nat (length (m_chaddr m)) mod 256; m_hops m mod 256] ++
+        be_bytes 4 (m_xid m) ++ be_bytes 2 (m_secs m) ++ be_bytes 2 (m_flags m) ++
+        ci ++ yi ++ si ++ gi ++ pad_to 16 (m_chaddr m) ++
+        pad_to 64 (firstn 63 (m_sname m)) ++ pad_to 128 (firstn 127 (m_file m)) ++
+        cookie ++ enc_opts (m_opts m) ++ [255]))))).
+
+Definition enc_msg (m : msg4) : res bytes := bind (enc_body m) (fun body => Ok (pad_min body)).
 
 (* strings end at the first NUL *)
 Fixpoint until_nul (b : bytes) : bytes :=
